@@ -307,3 +307,63 @@ def cli_options(opts):
     by the tool's own misc.options_dict.  Expectations must be computed from `opts`, not from the result."""
     from trees import misc
     return misc.options_dict(['%s' % k if v is True else '%s:%s' % (k, v) for k, v in opts.items()])
+
+
+def written_views(t, fmts=('export', 'brackets', 'discobrackets', 'tigerxml'), continuous=True):
+    """The tree as users see it: written by each of the tool's writers (on a deep copy, the writers rewrite
+    words) and decoded by the strict independent decoders.  Yields (format, MT or exception).  The bracket
+    format numbers tokens in the order in which they are written, so a writer that emits children out of
+    sentence order shows as a different structure or token sequence."""
+    import io
+    import copy
+    from trees import treeoutput
+    from . import codecs
+    for fmt in fmts:
+        if fmt == 'brackets' and not continuous:
+            continue
+        try:
+            stream = io.StringIO()
+            c = copy.deepcopy(t)
+            getattr(treeoutput, fmt + '_begin')(stream)
+            getattr(treeoutput, fmt)(c, stream)
+            getattr(treeoutput, fmt + '_end')(stream)
+            text = stream.getvalue()
+            if fmt == 'export':
+                got = codecs.decode_export(text)[0]
+            elif fmt == 'tigerxml':
+                got = codecs.decode_tigerxml(text)[0]
+            else:
+                root, toks = (codecs.decode_brackets(text) if fmt == 'brackets' else codecs.decode_discobrackets(text))[0]
+                got = model.MT(None, [dict(x, lemma=None, morph=None, edge=None) for x in toks], model.canon_mt(root))
+            yield fmt, got
+        except Exception as e:      # reported by the caller
+            yield fmt, e
+
+
+_PARENS = [('(', 'LRB'), ('-LRB-', 'LRB'), ('[', 'LSB'), ('-LSB-', 'LSB'), ('{', 'LCB'), ('-LCB-', 'LCB'),
+           (')', 'RRB'), ('-RRB-', 'RRB'), (']', 'RSB'), ('-RSB-', 'RSB'), ('}', 'RCB'), ('-RCB-', 'RCB')]
+
+
+def _map_parens(s):
+    for a, b in _PARENS:
+        s = s.replace(a, b)
+    return s
+
+
+def compare_written(t, exp, continuous, fmts=('export', 'brackets', 'discobrackets', 'tigerxml'), root_label=True):
+    """Problems (strings) between the expected MT and what each writer shows (words, tags, labels, structure;
+    the bracket formats show parentheses in words and tags by their documented replacements)."""
+    probs = []
+    for fmt, got in written_views(t, fmts, continuous):
+        if isinstance(got, Exception):
+            probs.append('%s writer: %s: %s' % (fmt, type(got).__name__, got))
+            continue
+        e = exp
+        if fmt in ('brackets', 'discobrackets'):
+            e = model.MT(exp.sid, [dict(tk, word=_map_parens(tk['word']), pos=_map_parens(tk['pos'])) for tk in exp.toks], exp.root)
+        if fmt == 'export' or not root_label:
+            e = model.MT(e.sid, e.toks, (got.root[0], e.root[1], e.root[2]))
+        d = mt_equal(e, got, tok_fields=('word', 'pos'), edges=False)
+        if d:
+            probs.append('%s writer shows %s' % (fmt, d))
+    return probs
